@@ -6,6 +6,11 @@ HERE = os.path.dirname(os.path.abspath(__file__))
 
 # id -> (level, technique, text, note)   (only implemented checks are listed; the rest go to not_applicable)
 CHECKS = {
+    "C07": ("model_checking",
+            "exhaustive enumeration of all ordered page trees up to 7/8 nodes with bounded deviations of inheritable-attribute placement, generated as real files and checked against a DFS/nearest-ancestor reference model, cached and uncached",
+            "Every rooted ordered tree up to the node bound (pages and empty Pages nodes anywhere) is generated exactly once with accurate counts and parent links and scrambled object numbers; attribute placement is explored to 2 (quick) / 3 (thorough) simultaneous deviations from 'root only'; chains to depth 12 with side pages; every index 0..count+2 is requested.",
+            "Trusted: reference model (DFS leaf order, nearest tagged ancestor). Trees with more nodes or fan-out beyond the bound are not covered; depth beyond 12 is outside the property.",
+            "§5 C07"),
     "C11": ("model_checking",
             "exhaustive enumeration of storage twins: every catalogue value x object-stream position x trailing white-space as a full product with bounded deviations of filter, /First padding, neighbour kinds and update placement; real files resolved through the real reader",
             "Every value kind is placed both as a direct object and inside an object stream (only/first/middle/last, each trailing white-space form incl. none at the end of the stream data, 5 object-stream filters, every neighbour kind) and both references must resolve to the producer's value; stream data must not depend on whether /Length is direct, an indirect direct-object integer (before/after) or an integer inside an object stream.",
